@@ -19,6 +19,9 @@ EXTENDS Integers, Sequences, FiniteSets, TLC
 (* ------------------------------- types -------------------------------- *)
 T(m)        == [m |-> m, l |-> 0, d |-> <<>>]
 TUndef      == T("undef")
+\* type of the null read from a variable that is declared (assigned somewhere in compiled text) but was
+\* never assigned at run time: the manual does not pin the type of that null, so it is a wildcard
+TAny        == T("any")
 TBool       == T("bool")
 TInt        == T("int")
 TDec        == T("dec")
@@ -31,6 +34,8 @@ ElemType(tt) == [tt EXCEPT !.l = @ - 1]
 (* ------------------------------- values ------------------------------- *)
 VNull(ty)   == [t |-> "null", ty |-> ty]
 VNil        == VNull(TUndef)
+\* a null never carries a tuple structure ("a null tuple has no structure")
+NullOf(ty)  == VNull([ty EXCEPT !.d = <<>>])
 VBool(b)    == [t |-> "bool", v |-> b]
 VInt(i)     == [t |-> "int", v |-> i]
 VDec(h)     == [t |-> "dec", h |-> h]
@@ -121,7 +126,8 @@ IPow(a, n) == IF n = 0 THEN 1 ELSE a * IPow(a, n - 1)
 
 \* result type of an arithmetic operator on two operand types (numeric promotion)
 ArithType(t1, t2) ==
-  IF t1.m = "int" /\ t2.m = "int" THEN TInt
+  IF t1.m = "any" \/ t2.m = "any" THEN TAny
+  ELSE IF t1.m = "int" /\ t2.m = "int" THEN TInt
   ELSE IF t1.m = "undef" /\ t2.m = "undef" THEN TDec
   ELSE IF t1.m = "undef" THEN t2
   ELSE IF t2.m = "undef" THEN t1
@@ -136,7 +142,7 @@ Arith(op, S, a, b) ==
        ELSE IF ta.m = "str" /\ tb.m = "undef" THEN R(S, a)
        ELSE IF ta.m = "undef" /\ tb.m = "str" THEN R(S, b)
        ELSE RE(S, EOther("type"))
-  ELSE IF ~(ta.l = 0 /\ tb.l = 0 /\ ta.m \in {"int", "dec", "undef"} /\ tb.m \in {"int", "dec", "undef"})
+  ELSE IF ~(ta.l = 0 /\ tb.l = 0 /\ ta.m \in {"int", "dec", "undef", "any"} /\ tb.m \in {"int", "dec", "undef", "any"})
        THEN RE(S, EOther("type"))
   ELSE IF IsNull(a) \/ IsNull(b) THEN R(S, VNull(ArithType(ta, tb)))
   ELSE IF a.t = "int" /\ b.t = "int" THEN
@@ -170,7 +176,7 @@ Rel(op, S, a, b) ==
   ELSE RE(S, EOther("wide"))
 
 \* Kleene three-valued logic; operands are boolean-typed or untyped null
-IsB3(v)  == TypeOf(v).l = 0 /\ (v.t = "bool" \/ (v.t = "null" /\ v.ty.m \in {"bool", "undef"}))
+IsB3(v)  == TypeOf(v).l = 0 /\ (v.t = "bool" \/ (v.t = "null" /\ v.ty.m \in {"bool", "undef", "any"}))
 B3(v)    == IF v.t = "bool" THEN (IF v.v THEN "T" ELSE "F") ELSE "N"
 FromB3(x) == IF x = "T" THEN VBool(TRUE) ELSE IF x = "F" THEN VBool(FALSE) ELSE VNull(TBool)
 And3(x, y) == IF x = "F" \/ y = "F" THEN "F" ELSE IF x = "T" /\ y = "T" THEN "T" ELSE "N"
@@ -189,7 +195,7 @@ BitOps   == {"&", "|", "^", "<<", ">>"}
 Coerce(v, et) ==
   IF v.t = "int" /\ et.l = 0 /\ et.m = "dec" THEN VDec(2 * v.v)
   ELSE IF v.t = "dec" /\ et.l = 0 /\ et.m = "int" /\ v.h % 2 = 0 THEN VInt(v.h \div 2)
-  ELSE IF v.t = "null" /\ v.ty.m = "undef" /\ v.ty.l = 0 THEN VNull(et)
+  ELSE IF v.t = "null" /\ v.ty.m \in {"undef", "any"} /\ v.ty.l = 0 THEN VNull(et)
   ELSE IF v.t = "null" /\ v.ty.l = 0 /\ et.l = 0 /\ v.ty.m \in {"int", "dec"} /\ et.m \in {"int", "dec"} THEN VNull(et)
   ELSE v
 Fits(v, et) == TypeOf(Coerce(v, et)) = et
@@ -263,7 +269,7 @@ Builtin(f, S, vs) ==
 \* read the value at a place
 LoadPath(e, S) ==
   IF e.k = "var" THEN
-     IF e.n \in DOMAIN S.vars THEN R(S, S.vars[e.n]) ELSE RE(S, EOther("undefined"))
+     IF e.n \in DOMAIN S.vars THEN R(S, S.vars[e.n]) ELSE R(S, VNull(TAny))
   ELSE \* .at(i)
      LET rr == LoadPath(e.r, S) IN
      IF Failed(rr.S) THEN rr
@@ -355,7 +361,7 @@ Eval(e, S) ==
   CASE e.k = "lit"  -> R(S, e.v)
     [] e.k = "null" -> R(S, VNil)
     [] e.k = "bigc" -> R(S, VInt(BigVal(e)))
-    [] e.k = "var"  -> IF e.n \in DOMAIN S.vars THEN R(S, S.vars[e.n]) ELSE RE(S, EOther("undefined"))
+    [] e.k = "var"  -> IF e.n \in DOMAIN S.vars THEN R(S, S.vars[e.n]) ELSE R(S, VNull(TAny))
     [] e.k = "paren" -> Eval(e.a, S)
     [] e.k = "un" ->
          LET r == Eval(e.a, S) IN
@@ -441,7 +447,7 @@ ForallLoop(s, S, idxs, isPlace, fuel) ==
            S1 == SetVar(S, s.n, tv.v[i])
            S2 == ExecList(s.b, S1)
            \* write the iterator back into the element it points to
-           S3 == IF isPlace /\ ~Failed(S2) /\ s.n \in DOMAIN S2.vars
+           S3 == IF isPlace /\ s.n \in DOMAIN S2.vars      \* also when the body failed: effects so far persist
                  THEN StorePath(s.t, S2, [LoadPath(s.t, S2).v EXCEPT !.v = SeqPut(@, i - 1, S2.vars[s.n])])
                  ELSE S2
        IN  IF S3.sig = "brk" THEN [S3 EXCEPT !.sig = ""]
@@ -493,8 +499,9 @@ Exec(s, S) ==
          ELSE LET n == Len(rt.v.v)
                   idxs == IF s.dir = "desc" THEN [i \in 1..n |-> n + 1 - i] ELSE [i \in 1..n |-> i]
                   S2 == [ForallLoop([s EXCEPT !.tv = rt.v], [rt.S EXCEPT !.inloop = @ + 1], idxs, pl, Fuel) EXCEPT !.inloop = S.inloop]
-              IN  \* after the loop the iterator variable is empty (null)
-                  IF n = 0 \/ Failed(S2) THEN S2 ELSE SetVar(S2, s.n, VNull(ElemType(rt.v.ty)))
+              IN  \* after the loop (however it is left) the iterator variable is empty: a null whose type
+                  \* the manual does not pin
+                  IF n = 0 THEN S2 ELSE SetVar(S2, s.n, VNull(TAny))
     [] s.k = "break" -> IF S.inloop > 0 THEN [S EXCEPT !.sig = "brk"] ELSE S
     [] s.k = "continue" -> IF S.inloop > 0 THEN [S EXCEPT !.sig = "cont"] ELSE S
     [] s.k = "return" ->
